@@ -4,10 +4,12 @@ package c13
 import (
 	"fmt"
 	"mime"
+	"net/http"
 	"strings"
 	"testing"
 
 	"github.com/issue9/mux/v9"
+	"github.com/issue9/mux/v9/types"
 	"pgregory.net/rapid"
 
 	"verif/harness/pat"
@@ -21,6 +23,7 @@ type MSpec struct {
 	Args  []string `json:"args,omitempty"`
 	Param string   `json:"param,omitempty"`
 	Subs  []MSpec  `json:"subs,omitempty"`
+	Func  bool     `json:"func,omitempty"` // and / or built with AndMatcherFunc / OrMatcherFunc
 }
 
 type Step struct {
@@ -115,7 +118,7 @@ func genMatcher(t *rapid.T, depth int) MSpec {
 		if k >= 8 {
 			kind = "or"
 		}
-		m := MSpec{Kind: kind}
+		m := MSpec{Kind: kind, Func: rapid.IntRange(0, 3).Draw(t, "funcForm") == 0}
 		for i, n := 0, rapid.IntRange(2, 3).Draw(t, "nsubs"); i < n; i++ {
 			if depth < 2 && rapid.IntRange(0, 3).Draw(t, "nest") == 0 {
 				m.Subs = append(m.Subs, genMatcher(t, depth+1))
@@ -176,6 +179,17 @@ func build(m MSpec) mux.Matcher {
 	var subs []mux.Matcher
 	for _, s := range m.Subs {
 		subs = append(subs, build(s))
+	}
+	if m.Func {
+		// the same combination spelt with the *Func constructors over the members' Match methods
+		var fs []func(*http.Request, *types.Context) bool
+		for _, sub := range subs {
+			fs = append(fs, sub.Match)
+		}
+		if m.Kind == "and" {
+			return mux.AndMatcherFunc(fs...)
+		}
+		return mux.OrMatcherFunc(fs...)
 	}
 	if m.Kind == "and" {
 		return mux.AndMatcher(subs...)
@@ -368,6 +382,30 @@ func check(c Case, st *rig.Stats) error {
 		}
 		if got := len(g.Routers()); got != len(members) {
 			return rig.Violf("routers-list", "%s: group lists %d routers, model %d", when, got, len(members))
+		}
+		groutes := g.Routes()
+		if len(groutes) != len(members) {
+			return rig.Violf("routers-list", "%s: Group.Routes() has %d entries, model %d routers", when, len(groutes), len(members))
+		}
+		for i, m := range members {
+			if got := g.Routers()[i]; got != m.r.Router {
+				return rig.Violf("routers-list", "%s: Routers()[%d] is %q, model %q (order of addition)", when, i, got.Name(), m.name)
+			}
+			if got := g.Router(m.name); got != m.r.Router {
+				return rig.Violf("routers-list", "%s: Router(%q) does not return the router added under that name", when, m.name)
+			}
+			if fmt.Sprint(groutes[m.name]) != fmt.Sprint(m.r.Routes()) {
+				return rig.Violf("routers-list", "%s: Group.Routes()[%q]=%v, the router's own Routes()=%v", when, m.name, groutes[m.name], m.r.Routes())
+			}
+		}
+		for _, n := range []string{"r0", "r1", "r2", "r3", "r4", "nope"} {
+			known := false
+			for _, m := range members {
+				known = known || m.name == n
+			}
+			if !known && g.Router(n) != nil {
+				return rig.Violf("routers-list", "%s: Router(%q) returns a router although none of that name is in the group", when, n)
+			}
 		}
 		for qi, q := range c.Reqs {
 			hdr := map[string][]string{}
